@@ -24,9 +24,11 @@ ToPointsBroadcastTrim(r) == \A p \in 0..(r.np - 1) : \A k \in 1..r.ncomp :
                       LET A == Attached(r, p) IN
                       A # {} => Abs(Cardinality(A) * r.tp[p * r.ncomp + k] - SumOver(A, LAMBDA ca : V(r, ca[1], ca[2], k))) <= Cardinality(A) + 1
 \* mean = True: every point of a cell gets the cell mean (equal quadrature weights in the issued regions), then the mean over cells
-CellSum(r, c, k) == SumOver(1..Len(r.vals[c]), LAMBDA a : r.vals[c][a][k])
+\* (quadrature weights as integers r.W where they are not all equal: Gauss-Legendre order 2 -> 81 w or 729 w)
+Wq(r, a) == IF "W" \in DOMAIN r THEN r.W[a] ELSE 1
+CellSum(r, c, k) == SumOver(1..Len(r.vals[c]), LAMBDA a : Wq(r, a) * r.vals[c][a][k])
 ToPointsCellMean(r) == \A p \in 0..(r.np - 1) : \A k \in 1..r.ncomp :
-                      LET A == Attached(r, p)  nq == Len(r.vals[1]) IN
+                      LET A == Attached(r, p)  nq == SumOver(1..Len(r.vals[1]), LAMBDA a : Wq(r, a)) IN
                       A # {} => Abs(nq * Cardinality(A) * r.tp[p * r.ncomp + k] - SumOver(A, LAMBDA ca : CellSum(r, ca[1], k))) <= nq * Cardinality(A) + nq
 \* average = False: one row per (cell, local point), not averaged
 ToPointsNoAverage(r) == LET ppc == Len(r.cells[1]) IN
